@@ -127,6 +127,14 @@ class Kern:
             return conv(e[1], self.ev(e[2][0]))
         if t == "ctor" and len(e[2]) == 0 and (e[1] or "").startswith("String"):
             return ""
+        if t == "init":
+            return [self.ev(x_) for x_ in e[1]]
+        if t == "sizeof" and len(e) >= 3 and e[1] == "sizeof":
+            # element counts are computed as sizeof(array) / sizeof(array[0]): every scalar counts 4 bytes here
+            if e[2] is not None:
+                v_ = self.ev(e[2])
+                return 4 * len(v_) if isinstance(v_, list) else 4
+            return 4
         if t == "new":
             n_ = self.ev(e[2]) if e[2] is not None else 1
             if not isinstance(n_, int) or n_ < 0 or n_ > 100000:
